@@ -101,6 +101,7 @@ Definition append_record (axis_of : axfn -> Z) (ax : Z -> Z -> Qc) (e1 e2 : axfn
   (append_entry axis_of ax e1 p, append_entry axis_of ax e2 p).
 
 (** ** the statements of DynamicRFKickMap::apply and the per-step calls of main() *)
-Inductive dynstmt := DCalcKick | DKickApply | DPushPast | DPop.
+(** [DCalcKickIfMore]: `if (!_next_modulation.empty()) _calcKick();` *)
+Inductive dynstmt := DCalcKick | DKickApply | DPushPast | DPop | DCalcKickIfMore.
 
 Inductive tevent := TApply (m : smap) | TTrack (m : smap).   (* <map>->apply() / <map>->applyToAll(trackme) *)
